@@ -722,6 +722,19 @@ func (fr *Frame) autoRange(li *loopInfo) *autoRange {
 	return ar
 }
 
+// mapRangeOf: the map a `for k, v := range m` loop ranges over ("rangeexpr" in the loop's clauses).
+func (fr *Frame) mapRangeOf(li *loopInfo) (MapV, bool) {
+	h := li.head
+	if h.Comment == "rangeiter.loop" && len(h.Instrs) > 0 {
+		if nx, ok := h.Instrs[0].(*ssa.Next); ok && !nx.IsString {
+			if rs := fr.rangeIt[nx.Iter]; rs != nil && rs.isMap {
+				return rs.mapv, true
+			}
+		}
+	}
+	return MapV{}, false
+}
+
 type deferEntry struct {
 	guard *Term
 	call  *ssa.CallCommon
@@ -1221,6 +1234,9 @@ func (fr *Frame) loopHead(li *loopInfo, st *State) *State {
 	if a := fr.autoRange(li); a != nil && !a.strIter {
 		fr.rangeCell, fr.rangeSeq, fr.rangeSeqT = a.cell, a.seq, a.seqT
 		defer func() { fr.rangeCell, fr.rangeSeq, fr.rangeSeqT = nil, nil, nil }()
+	} else if mv, ok := fr.mapRangeOf(li); ok {
+		fr.rangeSeq, fr.rangeSeqT = mv, types.NewMap(mv.K, mv.V)
+		defer func() { fr.rangeSeq, fr.rangeSeqT = nil, nil }()
 	}
 	for _, lc := range invs {
 		g := fr.evalBool(lc.Expr, st, lc.Src)
@@ -1393,6 +1409,9 @@ func (fr *Frame) backEdge(li *loopInfo, st *State) {
 	if li.auto != nil && !li.auto.strIter {
 		fr.rangeCell, fr.rangeSeq, fr.rangeSeqT = li.auto.cell, li.auto.seq, li.auto.seqT
 		defer func() { fr.rangeCell, fr.rangeSeq, fr.rangeSeqT = nil, nil, nil }()
+	} else if mv, ok := fr.mapRangeOf(li); ok {
+		fr.rangeSeq, fr.rangeSeqT = mv, types.NewMap(mv.K, mv.V)
+		defer func() { fr.rangeSeq, fr.rangeSeqT = nil, nil }()
 	}
 	if fr.con != nil {
 		k := 0
